@@ -35,26 +35,6 @@ pub fn hex(b: &[u8]) -> String {
     s
 }
 
-pub fn unhex(s: &str) -> Option<Vec<u8>> {
-    if s.len() % 2 != 0 {
-        return None;
-    }
-    let v = |c: u8| -> Option<u8> {
-        match c {
-            b'0'..=b'9' => Some(c - b'0'),
-            b'a'..=b'f' => Some(c - b'a' + 10),
-            b'A'..=b'F' => Some(c - b'A' + 10),
-            _ => None,
-        }
-    };
-    let b = s.as_bytes();
-    let mut out = Vec::with_capacity(b.len() / 2);
-    for c in b.chunks(2) {
-        out.push((v(c[0])? << 4) | v(c[1])?);
-    }
-    Some(out)
-}
-
 pub struct RecCtx {
     /// "built" | "updated" | "decoded" | "reloaded"
     pub origin: &'static str,
